@@ -12,6 +12,9 @@ from .simnet import FakeSocket, Net, SocketShim
 from .vloop import EVENT_READ, EVENT_WRITE, HarnessError, VLoop
 
 FIXED_EPOCH = 1_700_000_000
+# debug logging requested on the connection/client under test (what the library does must not depend on it); a check sets this
+# around the configurations it repeats "with debug on" - worker processes are forked afterwards and inherit it
+DEFAULT_DEBUG = [False]
 
 
 class _TimeShim:
@@ -225,8 +228,11 @@ class ConnWorld(World):
         client: bool = False,
         device_name: str | None = "dev",
         login: bool = True,
+        debug: bool | None = None,
     ) -> None:
         super().__init__()
+        if debug is None:
+            debug = DEFAULT_DEBUG[0]
         from aioesphomeapi.connection import APIConnection, ConnectionParams
         from aioesphomeapi.zeroconf import ZeroconfManager
 
@@ -257,6 +263,8 @@ class ConnWorld(World):
                 addresses=list(addresses),
                 **kw,
             )
+            if debug:
+                self.client.set_debug(True)
         else:
             self.params = ConnectionParams(
                 addresses=list(addresses),
@@ -268,7 +276,7 @@ class ConnWorld(World):
                 noise_psk=noise_psk,
                 expected_name=expected_name,
             )
-            self.conn = APIConnection(self.params, self._on_stop, False, None)
+            self.conn = APIConnection(self.params, self._on_stop, debug, None)
         self._fed = 0  # bytes of client output already given to the noise device
 
     def _on_stop(self, expected: bool) -> None:
